@@ -1,6 +1,19 @@
 use crate::engine::Tier;
 use serde_json::Value;
 
+pub mod c03;
+
+pub fn bind_or_die() {
+    let r = crate::bind::run();
+    if !r.failures.is_empty() {
+        eprintln!("MACHINERY ERROR: the reference model disagrees with {} of {} compliance cases", r.failures.len(), r.cases);
+        for f in r.failures.iter().take(20) {
+            eprintln!("  {}", f);
+        }
+        std::process::exit(2);
+    }
+}
+
 pub fn run(id: &str, tier: Tier) -> i32 {
     match id {
         "bind" => {
@@ -11,6 +24,7 @@ pub fn run(id: &str, tier: Tier) -> i32 {
             }
             if r.failures.is_empty() { 0 } else { 2 }
         }
+        "C03" => { bind_or_die(); c03::run(tier) }
         _ => {
             eprintln!("unknown check {}", id);
             2
@@ -18,7 +32,37 @@ pub fn run(id: &str, tier: Tier) -> i32 {
     }
 }
 
-pub fn replay(id: &str, _v: &Value) -> i32 {
-    eprintln!("no replay for {}", id);
-    2
+/// Re-execute one recorded case twice, without the explorer; the two
+/// observations must be identical (determinism guard).
+pub fn replay(id: &str, v: &Value) -> i32 {
+    let case = &v["case"];
+    let f: fn(&Value) -> Option<(String, bool)> = match id {
+        "C03" => c03::replay,
+        _ => {
+            eprintln!("no replay for {}", id);
+            return 2;
+        }
+    };
+    let a = f(case);
+    let b = f(case);
+    match (a, b) {
+        (Some((oa, va)), Some((ob, vb))) => {
+            if oa != ob || va != vb {
+                eprintln!("MACHINERY ERROR: two replays of the same case diverge:\n  {}\n  {}", oa, ob);
+                return 2;
+            }
+            println!("{}", oa);
+            if va {
+                println!("VIOLATION property={} replay=<this file> (reproduced)", id);
+                1
+            } else {
+                println!("case no longer violates {}", id);
+                0
+            }
+        }
+        _ => {
+            eprintln!("replay file has no usable case");
+            2
+        }
+    }
 }
